@@ -156,6 +156,12 @@ def handle (w : World) (line : String) : World × String :=
       | .ok (w', k) => (w', "ok " ++ toString k)
       | .error e => (w, "err " ++ e.name)
     | _, _ => (w, "bad-op")
+  | ["addad", c, _kind, ad] =>     -- conn.add_adapter(<adapter>) on an existing connection
+    match c.toNat?, parseAdapter ad with
+    | some c', some a => match w.addAdapter c' a with
+      | .ok w' => (w', "ok")
+      | .error e => (w, "err " ++ e.name)
+    | _, _ => (w, "bad-op")
   | ["log", _level] => (w, "ok")     -- the logging level is no input of anything that is sent
   | ["dict", h] =>
     match parseHdrs h with
